@@ -7,28 +7,12 @@ constants, defaults, key table and header template to the source.
 Parameters, not proved (DESIGN §5 K3): float rendering (`repr`) and `unidecode` — the writer emits tokens;
 hit / hold / sample lines contain integers only and are proved down to the characters.
 -/
-import Reamber.Lemmas.OsuText
+import Reamber.Lemmas.OsuHeader
 import Reamber.Generated.OsuTables
 
 namespace Reamber.Osu
 
 /-! ## tie to the source -/
-
-/-- the key table the model's `metaAssign` implements: (key, attribute, conversion) -/
-def modelKeyTable : List (String × String × String) :=
-  [("AudioFilename", "audio_file_name", "strip"), ("AudioLeadIn", "audio_lead_in", "int"),
-   ("PreviewTime", "preview_time", "int"), ("Countdown", "countdown", "boolint"),
-   ("SampleSet", "sample_set", "sampleset"), ("StackLeniency", "stack_leniency", "float"), ("Mode", "mode", "int"),
-   ("LetterboxInBreaks", "letterbox_in_breaks", "boolint"), ("SpecialStyle", "special_style", "boolint"),
-   ("WidescreenStoryboard", "widescreen_storyboard", "boolint"), ("DistanceSpacing", "distance_spacing", "float"),
-   ("BeatDivisor", "beat_divisor", "int"), ("GridSize", "grid_size", "int"), ("TimelineZoom", "timeline_zoom", "float"),
-   ("Title", "title", "strip"), ("TitleUnicode", "title_unicode", "strip"), ("Artist", "artist", "strip"),
-   ("ArtistUnicode", "artist_unicode", "strip"), ("Creator", "creator", "strip"), ("Version", "version", "strip"),
-   ("Source", "source", "strip"), ("Tags", "tags", "tags"), ("BeatmapID", "beatmap_id", "int"),
-   ("BeatmapSetID", "beatmap_set_id", "int"), ("HPDrainRate", "hp_drain_rate", "float"),
-   ("CircleSize", "circle_size", "float"), ("OverallDifficulty", "overall_difficulty", "float"),
-   ("ApproachRate", "approach_rate", "float"), ("SliderMultiplier", "slider_multiplier", "float"),
-   ("SliderTickRate", "slider_tick_rate", "float")]
 
 def tokFlag : Tok → String
   | .num _ => "num" | .uni _ => "uni" | _ => ""
@@ -72,13 +56,6 @@ theorem consts_tie :
     Generated.Osu.numHelperBody = "f = float(v); return str(int(f)) if f.is_integer() else repr(f)" ∧
     (writeMeta d0).map lineShape ++ [("*", "*", "")] = Generated.Osu.metaWriteShape := by
   decide +kernel
-
-/-- keys outside the table leave the metadata untouched -/
-theorem metaAssign_other (m : Meta) (k : Str) (v : MVal)
-    (hk : ∀ e ∈ modelKeyTable, k ≠ e.1.toList) : metaAssign m k v = .ok m := by
-  simp only [modelKeyTable, List.mem_cons, List.not_mem_nil, or_false, forall_eq_or_imp, forall_eq] at hk
-  unfold metaAssign
-  simp only [hk, if_false]
 
 /-! ## column ↔ x (every key count) -/
 
@@ -165,15 +142,6 @@ example : wfObjLine "307,0,1000.75,132,0,2000.5:0:0:0:0:".toList = true := by de
 
 /-! ## `Key:Value` — the first colon only (D01) -/
 
-/-- one `Key:value` line: split at the first colon, then the key table — for every key without a colon that is not
-one of the two event markers, and **every** value -/
-theorem metaStep_key_value (m m' : Meta) (k v : Str) (rest : List Str) (hk : ':' ∉ k) (hb : k ≠ kBackground)
-    (hs : k ≠ kSamples) (ha : metaAssign m k (some v) = .ok m') : metaStep m (k ++ ':' :: v) rest = .ok m' := by
-  unfold metaStep
-  have hne : k ++ ':' :: v ≠ [] := by simp
-  rw [if_neg hne, split1_key_value ':' k v hk]
-  simp only [ha, if_neg hb, if_neg hs]
-
 /-- **every metadata value survives, whatever it contains** (further colons included): the line `key ++ ":" ++ value`
 is split at the first colon and the value reaches the attribute trimmed.  Shown for the seven text attributes. -/
 theorem meta_value_any (m : Meta) (v : Str) (rest : List Str) :
@@ -203,14 +171,6 @@ theorem meta_numeric_any (m : Meta) (v : Str) (rest : List Str) (q : Rat) (i : I
      · decide +kernel
      · decide +kernel
      · unfold metaAssign; simp [mFloat, mInt, h, bind, Except.bind, pure, Except.pure])
-
-/-- a header line `prefix + token` whose prefix is `key:` (possibly followed by a blank) -/
-theorem metaStep_lit_tok (R : Render) (m m' : Meta) (k v0 : Str) (pre : String) (t : Tok) (rest : List Str)
-    (hpre : pre.toList = k ++ ':' :: v0) (hk : ':' ∉ k) (hb : k ≠ kBackground) (hs : k ≠ kSamples)
-    (ha : metaAssign m k (some (v0 ++ R.tok t)) = .ok m') : metaStep m (R.line [L pre, t]) rest = .ok m' := by
-  have hl : R.line [L pre, t] = k ++ ':' :: (v0 ++ R.tok t) := by
-    simp [Render.line, L, Render.tok, hpre]
-  rw [hl]; exact metaStep_key_value m m' k _ rest hk hb hs ha
 
 /-- **numeric metadata round trip, no domain restriction** (after the repair of D30 the writer uses `_num`): the line
 that `write_meta_string_list` emits for a numeric attribute reads back to exactly that number — for every integral
@@ -315,31 +275,6 @@ theorem timing_line_roundtrip (R : Render) :
   ⟨fun b a c d e f => readBpm_writeBpm R b a c d e f, fun b a c d e f => readSv_writeSv R b a c d e f⟩
 
 /-! ## the whole `[HitObjects]` section of a written chart -/
-
-theorem mem_insertBy {α} (le : α → α → Bool) (x a : α) (l : List α) : a ∈ insertBy le x l ↔ a = x ∨ a ∈ l := by
-  induction l with
-  | nil => simp [insertBy]
-  | cons y ys ih =>
-    unfold insertBy
-    split
-    · simp
-    · simp only [List.mem_cons, ih]
-      constructor
-      · rintro (h | h | h)
-        · exact Or.inr (Or.inl h)
-        · exact Or.inl h
-        · exact Or.inr (Or.inr h)
-      · rintro (h | h | h)
-        · exact Or.inr (Or.inl h)
-        · exact Or.inl h
-        · exact Or.inr (Or.inr h)
-
-theorem mem_isort {α} (le : α → α → Bool) (a : α) (l : List α) : a ∈ isort le l ↔ a ∈ l := by
-  induction l with
-  | nil => simp [isort]
-  | cons y ys ih =>
-    have : isort le (y :: ys) = insertBy le y (isort le ys) := rfl
-    rw [this, mem_insertBy, ih]; simp
 
 /-- **Every chart, any number of notes, any interleaving, every key count 1..256**: the object lines that `write`
 emits (holds and hits merged, sorted by time), classified by counting separators and read back, are exactly the hits
